@@ -762,7 +762,7 @@ class FnTr:
             body = self.block(self.f.body, env, lambda e: 'G.ret')
             head = ('/-- `%s`: the value returned or the exception class; `fuel` bounds every `while` loop and the length of\n'
                     '    a generator handed to `list`, `rnd` is the script of `random.random()` results -/\n'
-                    'def %s (fuel : Nat) (rnd : Nat → α) %s : Except PyExc (List α) :=\n  PyRtC15.runFn (\n%s)\n' % (
+                    'def %s (fuel : Nat) (rnd : Nat → α) %s : Except PyExc (List α) :=\n  PyRtC15.runFn (α := α) (\n%s)\n' % (
                         self.spec['qualname'], self.name, params, ind(body, 2)))
         return '\n'.join([t for _, t in self.loops] + [head])
 
